@@ -44,7 +44,7 @@ ALPHABET = {
     "polygon test points": "lattice of step 1/2, lattice of step 1/2 offset by 1/4, centroids of all vertex triples snapped to 1/64; "
                            "points exactly on the boundary are excluded (undefined)",
     "sampler ranges": RANGES,
-    "sampler counts": "1..4 per axis (thorough 1..6)",
+    "sampler counts": "1..4 per axis in full product (thorough 1..6) plus one axis at 50/99/104 (thorough also 7/11/49/101/256)",
 }
 BOUND = {
     "quick": "full product of the 15-value alphabet for 1-D and 2-D wrappers, 7-value sub-alphabet cubed for 3-D wrappers; 5 periods per "
@@ -579,6 +579,14 @@ def _periodic_check_axis(R, fam, axis, x, p, got):
         else:
             V(R.viol, "%s:%s:inner-outside-[0,p)" % (fam, xl), "%s(f, period=%r) at x=%r passes %r to f" % (fam, p, x, got), "in [0, %r)" % p, got)
         return c
+    # where the exact residue is itself a double (always for x >= 0 and for exact multiples of the period) the
+    # mathematically mapped argument is representable and must be passed on exactly (-0.0 counts as 0)
+    fm = float(m)
+    if Fraction(fm) == m and fm < p:
+        if not (got == fm):
+            lab = "exact-multiple" if c == "periodic:exact-multiple" else xl
+            V(R.viol, "%s:%s:inner-not-the-exact-residue" % (fam, lab), "%s(f, period=%r) at x=%r passes %r to f; x mod p = %r exactly" % (fam, p, x, got, fm), fm, got)
+        return c
     d = circular_distance(Fraction(got), m, Fraction(p))
     if d > Fraction(math.ulp(p)):
         V(R.viol, "%s:%s:inner-not-congruent" % (fam, xl), "%s(f, period=%r) at x=%r passes %r to f; x mod p = %r" % (fam, p, x, got, float(m)), float(m), got)
@@ -867,7 +875,16 @@ def _sample_ranges(R, name, fn, dim, rngs, nmax, vector):
     from raysect.core.math import Vector3D
     reversed_ = any(lo > hi for lo, hi in rngs)
     R.classes.append(name)
-    for ns in itertools.product(range(1, nmax + 1), repeat=dim):
+    # small counts in full product, plus counts whose step does not round-trip ((n-1) * ((hi-lo)/(n-1)) != hi-lo,
+    # e.g. 50, 99, 104 on a unit range) on one axis at a time: there "includes both end points" is not automatic
+    big = (50, 99, 104) if nmax <= 4 else (7, 11, 49, 50, 99, 101, 104, 256)
+    tuples = list(itertools.product(range(1, nmax + 1), repeat=dim))
+    for ax in range(dim):
+        for b in big:
+            t = [2] * dim
+            t[ax] = b
+            tuples.append(tuple(t))
+    for ns in tuples:
         code, table = _coded()
         ncalls = [0]
         if vector:
